@@ -25,7 +25,7 @@ WHAT = {
     "Y1": "status-keyed summary tables cover every status the element kind can end with (and STATUS_ORDER prints them)",
     "Y2": "tree walkers visit every feature/rule/scenario/outline row/step of a model tree exactly once, under its status",
     "Y5": "scenarios listed as failing / errored are exactly those with failure / error-class status",
-    "Y6": "summary formats iterate STATUS_ORDER; only optional statuses are hidden when zero",
+    "Y6": "only optional statuses (never passed / failed) may be hidden from a summary line when their count is zero",
 }
 
 
@@ -282,38 +282,8 @@ def check_tables_and_formats(chk, ix):
                   "%s lets %s be hidden when zero" % (cname, bad))
         else:
             chk.ok("Y6", {"optional": cname, "members": opt}, nontrivial_key=cname)
-    for fname in ("format_summary_with_schema", "format_summary_v1"):
-        f = ix.func("behave.reporter.summary:" + fname)
-        chk.instance("Y6")
-        loops = [n for n in ast.walk(f.node) if isinstance(n, ast.For) and unparse(n.iter) == "STATUS_ORDER"]
-        if loops:
-            chk.ok("Y6", {"format": fname, "iterates": "STATUS_ORDER"}, nontrivial_key=fname)
-        else:
-            _fail(chk, "Y6", f.fullname, f.file, f.lineno, "%s does not iterate STATUS_ORDER" % fname,
-                  "%s does not iterate STATUS_ORDER: formats may print different numbers" % fname)
-    # every format name maps to a function built on those two
-    chk.instance("Y6")
-    try:
-        fmap = rm.consts["OUTPUT_FORMAT_MAP"]
-        targets = [unparse(v) for v in fmap.values]
-    except Exception as e:      # noqa
-        raise AnalysisError("OUTPUT_FORMAT_MAP not recognised: %s" % e)
-    bad = []
-    for t in targets:
-        f = rm.functions.get(t)
-        if f is None:
-            bad.append(t)
-            continue
-        if t == "format_summary_v1":
-            continue
-        calls = [unparse(n.func) for n in ast.walk(f.node) if isinstance(n, ast.Call)]
-        if "format_summary_with_schema" not in calls:
-            bad.append(t)
-    if bad:
-        _fail(chk, "Y6", "behave.reporter.summary:OUTPUT_FORMAT_MAP", rm.relpath, 1, "formats %s" % bad,
-              "summary formats %s are not built on the shared STATUS_ORDER formatter" % bad)
-    else:
-        chk.ok("Y6", {"formats": targets}, nontrivial_key="format map")
+    # that every format prints the numbers of the summary it is given - whichever way it walks the statuses - is decided by
+    # Y7 (check_formats_concrete): every entry of OUTPUT_FORMAT_MAP is evaluated on concrete summaries
 
 
 def check_formats_concrete(chk, ix):
